@@ -24,6 +24,42 @@ func (emptyQuerier) SelectLogs(ctx context.Context, start, end otelstorage.Times
 
 // probeCmd: developer tool — parse and evaluate queries given as arguments over an empty store.
 func probeCmd(args []string) {
+	if len(args) > 0 && args[0] == "layoutrt" {
+		d, err := StartDriver("/verif/lean/.lake/build/bin/driver")
+		if err != nil {
+			fatal("driver: %v", err)
+		}
+		r := rand.New(rand.NewSource(13))
+		hist := map[string]int{}
+		ex := map[string]string{}
+		var reqs []Sexp
+		var texts []string
+		for i := 0; i < 30000; i++ {
+			ls := genC05Valid(r)
+			var items []Sexp
+			for _, t := range expectedToks(ls) {
+				g := r.Intn(9)
+				if r.Intn(3) > 0 {
+					g = r.Intn(2)
+				}
+				items = append(items, L(t, N(int64(r.Intn(3))), N(int64(g))))
+			}
+			reqs = append(reqs, L(A("layoutrt"), LS(items)))
+			texts = append(texts, renderLex(ls, 0))
+		}
+		out, err := d.AskBatch(reqs)
+		if err != nil {
+			fatal("%v", err)
+		}
+		for i, o := range out {
+			hist[o.String()]++
+			ex[o.String()] = texts[i]
+		}
+		for k, v := range hist {
+			fmt.Printf("%6d %s\n        %s\n", v, k, ex[k])
+		}
+		return
+	}
 	if len(args) > 0 && args[0] == "c05rt" {
 		d, err := StartDriver("/verif/lean/.lake/build/bin/driver")
 		if err != nil {
